@@ -7,6 +7,7 @@ import types
 import warnings
 
 import numpy as np
+import z3
 
 from .. import sym, shim, astx, npx
 
@@ -85,6 +86,21 @@ def h_step(h):
         up = pe > alpha
         h.close(ns["rel_dist"], rel_dist + rel_step if up else rel_dist - 0.5 * rel_step, "distance-update")
         h.close(ns["rel_step_size"], rel_step if up else 0.5 * rel_step, "step-size-update")
+    # the loop's own continuation test, evaluated in the post-state: the search goes on exactly while the exceedance
+    # fraction differs from alpha by more than allowed_error * alpha
+    cont = step.test(ns)
+    ae = ns["allowed_error"]
+    if h.sym:
+        diff = sym.lift(pe) - alpha
+        far = sym.Or(diff > ae * alpha, -diff > ae * alpha)
+        cont_b = cont if isinstance(cont, sym.SB) else sym.SB(z3.BoolVal(bool(cont)))
+        h.check(sym.Or(sym.And(cont_b, far), sym.And(sym.Not(cont_b), sym.Not(far))),
+                "search-continues-iff-relative-error-exceeds-allowed_error")
+    else:
+        d = abs(pe - alpha)
+        if abs(d - ae * alpha) > 1e-12:        # not on the rounding edge of the comparison
+            h.check(bool(cont) == (d > ae * alpha), "search-continues-iff-relative-error-exceeds-allowed_error",
+                    f"pe={pe} alpha={alpha} allowed_error={ae} continue={bool(cont)}")
     h.check(ns["nr_iterations"] == it + 1, "iteration-counted")
     last = (it + 1 == 100)
     h.check(warned == last, "precision-warning-exactly-when-the-iteration-limit-is-hit", f"warned={warned} at iteration {it + 1}")
